@@ -39,7 +39,7 @@ LayoutTab == [ver \in VerSet |-> LayoutOf(ver)]
 \* string lengths (model name, texture file names -- the two strings of the object model): -1 = short default / 300
 StrLens == {0, 1, 260, 261, 1024}
 M2CaseS(tag, cards, ver, kf, floats, nlen, tlen) ==
-  [ kind |-> "m2", slice |-> tag, namelen |-> nlen, texlen |-> tlen, alias |-> 0, kfmask |-> IF kf THEN 7 ELSE 0, save |-> FALSE, ver |-> ver, vn |-> VerNum(ver), kf |-> kf, floats |-> floats,
+  [ kind |-> "m2", slice |-> tag, namelen |-> nlen, texlen |-> tlen, alias |-> 0, kfmask |-> IF kf THEN 7 ELSE 0, save |-> FALSE, amask |-> -1, arot |-> FALSE, ver |-> ver, vn |-> VerNum(ver), kf |-> kf, floats |-> floats,
     card |-> [sec \in M2Secs |-> cards[DimOf(sec)]],
     convs |-> Versions,
     hsize |-> LayoutTab[ver].hsize, hdrpos |-> LayoutTab[ver].hdrpos, elem |-> LayoutTab[ver].elem,
@@ -77,6 +77,11 @@ Presence == { WithPattern(M2Case("presence", AnimShape, ver, TRUE, "normal"), 0,
 \* number of embedded views {0,1,2,4} x every source version (each case is converted to all 5 targets through both APIs)
 ViewCounts == { M2Case("views", [j \in 1..ND |-> IF Dims[j] = "views" THEN nv ELSE IF Dims[j] = "vertices" THEN 1 ELSE 0], ver, FALSE, "normal") :
                   nv \in {0, 1, 2, 4}, ver \in VerSet }
+\* array presence mask of the tracks (bit 1 ranges, 2 timestamps, 4 values; for events ranges / timestamps): every array of a
+\* structure present or absent INDEPENDENTLY.  All 8 combinations for every animated section (3 elements each) at Vanilla and TBC
+\* (where bone tracks have ranges) and WotLK; at Cataclysm / MoP the mask additionally rotates over the elements ((m + 3i) mod 8)
+ArraySlice == { [M2Case("arrays", AnimShape, ver, TRUE, "normal") EXCEPT !.amask = am] : am \in 0..7, ver \in {"Vanilla", "TBC", "WotLK"} }
+               \cup { [M2Case("arrays", AnimShape, ver, TRUE, "normal") EXCEPT !.amask = am, !.arot = TRUE] : am \in 0..7, ver \in {"Cataclysm", "MoP"} }
 \* save(path) slice: these cases are additionally saved to a path that is absent / holds a shorter / a longer file
 SaveCases == { [M2Case("save", AllOf(c), ver, TRUE, "normal") EXCEPT !.save = TRUE] : c \in {1, 3}, ver \in VerSet }
 NDraws == IF Thorough THEN 3000 ELSE 120
@@ -113,7 +118,7 @@ Anims == { [ kind |-> "anim", slice |-> "anim", format |-> fm, nsec |-> ns, nbon
              fm \in {"modern", "legacy"}, ns \in {0, 1, 3}, nb \in {0, 1, 3}, mk \in 0..7 } \ {c2 \in {} : TRUE}
 AnimsOk == {c2 \in Anims : c2.mask \in MasksOf(c2.nbones) /\ (c2.nsec > 0 \/ (c2.nbones = 0 /\ c2.mask = 0))}
 
-Cases == SetToSeq(Uniform) \o SetToSeq(Strings) \o SetToSeq(Aliased) \o SetToSeq(Presence) \o SetToSeq(ViewCounts) \o SetToSeq(SaveCases) \o SetToSeq(Singles) \o SetToSeq(Pairs) \o SetToSeq(Draws) \o SetToSeq(Skins) \o SetToSeq(AnimsOk)
+Cases == SetToSeq(Uniform) \o SetToSeq(Strings) \o SetToSeq(Aliased) \o SetToSeq(Presence) \o SetToSeq(ViewCounts) \o SetToSeq(SaveCases) \o SetToSeq(ArraySlice) \o SetToSeq(Singles) \o SetToSeq(Pairs) \o SetToSeq(Draws) \o SetToSeq(Skins) \o SetToSeq(AnimsOk)
 ASSUME ndJsonSerialize(IOEnv.CASES, Cases)
 ASSUME PrintT(<<"GENERATED", Len(Cases), Cardinality(Uniform), Cardinality(Singles), Cardinality(Pairs), Cardinality(Draws), Cardinality(Skins), Cardinality(AnimsOk)>>)
 
